@@ -71,3 +71,25 @@ Definition truth_shapes_ok (o : out) (t : list (string * list (string * shape)))
                        && list_rel (fun f y => String.eqb (fd_name f) (fst y) && shape_eqb (denote (fd_ty f)) (snd y))
                                    (s_fields s) (snd x))
            (o_structs o) t.
+
+(** C07: offsets / stride observed in the compiled module (rustc) against RustLayout on the extracted struct *)
+From W2W Require Import RustLayout C07Spec.
+Definition obs_vertex_ok (o : out) (x : string * list (N * N) * N) : bool :=
+  let '(name, attrs, stride) := x in
+  match List.find (fun v => String.eqb (vs_name v) name) (o_vstructs o),
+        List.find (fun s => String.eqb (s_name s) name) (o_structs o) with
+  | Some v, Some s =>
+      match struct_layout (struct_env (o_structs o) []) s with
+      | Some (offs, size, _) =>
+          N.eqb size stride
+          && list_eqb (pair_eqb N.eqb N.eqb) (map (fun a => (va_location a, fst (attr_range s offs a))) (vs_attrs v)) attrs
+      | None => false
+      end
+  | _, _ => false
+  end.
+
+(** a vertex entry takes a bare @location argument (no struct): outside what the generator covers *)
+Definition kf_bare_location_arg (m : module) : bool :=
+  existsb (fun e => stage_eqb (e_stage e) Vertex
+                    && existsb (fun a => match a_binding a with Some (BLocation _ _) => true | _ => false end) (f_args (e_fn e)))
+          (entries m).
